@@ -131,7 +131,7 @@ impl C13 {
         out.nontrivial = changed > 0;
         out.fp = u;
         // every changed input is a distinct non-trivial case; report their number through synthetic fingerprints
-        out.extra_fps = (0..changed).map(|i| (u << 32) | i).collect();
+        out.extra_distinct = changed.saturating_sub(1);
         out.desc = json!({"prefix": prefix, "inputs": out.evals, "changed_by_canonicalisation": changed});
         out
     }
